@@ -49,11 +49,15 @@ static void cstl_vector_set_capacity(
      * element at the end to use as scratch space for exchanging
      * elements during sort and reverse operations
      */
-    e = realloc(v->elem.base, (sz + 1) * v->elem.size);
-    if (e != NULL) {
-        v->elem.base = e;
-        v->cap = sz;
-    }
+    if (sz < SIZE_MAX
+        && v->elem.size > 0
+        && sz + 1 <= SIZE_MAX / v->elem.size) {
+        e = realloc(v->elem.base, (sz + 1) * v->elem.size);
+        if (e != NULL) {
+            v->elem.base = e;
+            v->cap = sz;
+        }
+    } /* else, the number of bytes can't be represented */
 }
 
 void cstl_vector_reserve(struct cstl_vector * const v, const size_t sz)
